@@ -144,6 +144,9 @@ def run_sim_case(spec, prop, extra_listeners=(), post=None, **run_kwargs):
             C[k] = C.get(k, 0) + v
         for k, v in m.W.items():
             W[k] = max(W.get(k, 0.0), v)
+    C["input_immutability_checks"] = 1
+    for m_ in getattr(rr, "mutated", []):
+        V.append({"kind": "solve_changes_callers_inputs", "mechanism": "solve_changes_callers_inputs", "detail": m_})
     C["update_calls"] = rr.recorder.counts.get("on_update_end", 0)
     C["spsq_calls"] = rr.recorder.counts.get("on_spsq", 0)
     exc = rr.exception
